@@ -362,6 +362,14 @@ class Interp:
             frame_holder = {}
             try:
                 val = self.call_funcinfo(fi, list(a), dict(k), so, None, frame_holder=frame_holder, toplevel=True)
+                if self.fwd:
+                    val = self._settle(val, {})
+                    fr_ = frame_holder.get('frame')
+                    if fr_ is not None:
+                        for nm_ in list(fr_.env):
+                            fr_.env[nm_] = self._settle(fr_.env[nm_], {})
+                    if so is not None:
+                        self._settle(so, {})
                 results.append(PathResult(list(self.conds), 'return', val, frame_holder.get('frame'), list(self.events)))
             except AbsRaise as e:
                 results.append(PathResult(list(self.conds), 'raise', Const(e.exc), frame_holder.get('frame'), list(self.events)))
@@ -377,6 +385,21 @@ class Interp:
         if getattr(self.dom, 'skip_coincidences', False):
             results = [r for r in results if not any(e.get('kind') == 'coincidence' for e in r.events)]
         return results
+
+    def _settle(self, v, seen):
+        """the value with every in-place update applied (so that a rule inspecting a result sees current arrays)."""
+        v = self.deref(v)
+        if id(v) in seen:
+            return v
+        seen[id(v)] = True
+        if isinstance(v, Obj):
+            for k_ in list(v.attrs):
+                v.attrs[k_] = self._settle(v.attrs[k_], seen)
+        elif isinstance(v, Tup):
+            v.items[:] = [self._settle(x, seen) for x in v.items]
+        elif isinstance(v, DictV):
+            v.entries[:] = [(k_, self._settle(x, seen)) for k_, x in v.entries]
+        return v
 
     # -- calling -----------------------------------------------------------
     def call_funcinfo(self, fi, args, kwargs, self_obj, node, closure=None, frame_holder=None, toplevel=False):
